@@ -62,6 +62,81 @@ type ufunInfo struct {
 	sorts  []Sort
 	rsort  Sort
 	name   string
+	fuel   bool // first SMT argument is a Fuel term bounding the unfolding depth
+}
+
+// boundParams declares bound variables for parameters (used by axioms and definitions).
+func (x *Exec) boundParams(pnames []string, ptypes []types.Type, suffix string) (map[string]Value, []string) {
+	c := x.c
+	vars := map[string]Value{}
+	var decl []string
+	for i, pn := range pnames {
+		T := ptypes[i]
+		if sl, ok := T.Underlying().(*types.Slice); ok {
+			var det []Term
+			for j, lf := range c.leaves(sl.Elem()) {
+				n := fmt.Sprintf("%s_a%d%s", pn, j, suffix)
+				decl = append(decl, fmt.Sprintf("(%s %s)", n, SArr(c.INT(), lf.sort)))
+				det = append(det, atom(n, SArr(c.INT(), lf.sort)))
+			}
+			off := atom(pn+"_off"+suffix, c.INT())
+			ln := atom(pn+"_len"+suffix, c.INT())
+			decl = append(decl, fmt.Sprintf("(%s %s) (%s %s)", off.S, c.INT(), ln.S, c.INT()))
+			vars[pn] = Value{T: T, L: []Term{intLit(1), off, ln, ln}, Det: det}
+			continue
+		}
+		n := pn + suffix
+		srt := c.leaves(T)[0].sort
+		decl = append(decl, fmt.Sprintf("(%s %s)", n, srt))
+		vars[pn] = Value{T: T, L: []Term{atom(n, srt)}}
+	}
+	return vars, decl
+}
+
+// defineUFun emits the fuel-limited definition: f(S(ly), a) = f(ly, a) and
+// f(S(ly), a) = body with recursive calls at fuel ly. Patterns contain no arithmetic, so
+// instantiation unfolds at most as deep as the fuel of the terms that occur.
+func (x *Exec) defineUFun(fi *ufunInfo) {
+	c := x.c
+	u := fi.u
+	vars, decl := x.boundParams(u.Params, fi.ptypes, "_d")
+	decl = append([]string{"(ly_d Fuel)"}, decl...)
+	ly := atom("ly_d", "Fuel")
+	var args []Term
+	for i, pn := range u.Params {
+		v := vars[pn]
+		if _, ok := fi.ptypes[i].Underlying().(*types.Slice); ok {
+			args = append(args, v.Det...)
+			args = append(args, v.SOff(), v.SLen())
+		} else {
+			args = append(args, v.L[0])
+		}
+	}
+	fname := sanitize(fi.name)
+	hi := mk(fi.rsort, fname, append([]Term{mk("Fuel", "fS", ly)}, args...)...)
+	lo := mk(fi.rsort, fname, append([]Term{ly}, args...)...)
+	c.Raw(fmt.Sprintf("axiom.%s.syn", u.Name), fmt.Sprintf("(assert (forall (%s) (! (= %s %s) :pattern (%s))))", strings.Join(decl, " "), hi.S, lo.S, hi.S))
+	env := &Env{x: x, st: nil, vars: vars, fuel: ly}
+	saved := c.qscope
+	var local []Term
+	c.qscope = &local
+	var body Term
+	func() {
+		defer func() { c.qscope = saved }()
+		bv := env.eval(u.Def)
+		if bv.T == tUntyped {
+			bv = c.Scalar(fi.rtype, c.Lit(mustConst(bv.Term()), fi.rtype))
+		}
+		body = bv.Term()
+	}()
+	var guards []Term
+	for i, pn := range u.Params {
+		if _, ok := fi.ptypes[i].Underlying().(*types.Slice); !ok {
+			guards = append(guards, c.RangeFact(vars[pn].L[0], fi.ptypes[i]))
+		}
+	}
+	def := implies(and(append(guards, local...)...), eq(hi, body))
+	c.Raw(fmt.Sprintf("axiom.%s.def", u.Name), fmt.Sprintf("(assert (forall (%s) (! %s :pattern (%s))))", strings.Join(decl, " "), def.S, hi.S))
 }
 
 func (x *Exec) ufunInfo(u *UFun) *ufunInfo {
@@ -99,8 +174,15 @@ func (x *Exec) ufunInfo(u *UFun) *ufunInfo {
 	fi.rtype = T
 	fi.rsort = c.leaves(T)[0].sort
 	x.ufuns[u.Name] = fi
+	if u.Def != nil {
+		fi.fuel = true
+		fi.sorts = append([]Sort{"Fuel"}, fi.sorts...)
+	}
 	c.Fun(fi.name, fi.sorts, fi.rsort)
-	c.Assume["recursive specification function "+u.Name+" introduced by definitional axioms ("+u.Where+")"] = true
+	c.Assume["recursive specification function "+u.Name+" introduced by its definition / definitional axioms ("+u.Where+")"] = true
+	if u.Def != nil {
+		x.defineUFun(fi)
+	}
 	// axioms: universally closed over the parameters
 	for ai, ax := range u.Axioms {
 		var decl []string
@@ -126,36 +208,47 @@ func (x *Exec) ufunInfo(u *UFun) *ufunInfo {
 			decl = append(decl, fmt.Sprintf("(%s %s)", n, srt))
 			vars[pn] = Value{T: T, L: []Term{atom(n, srt)}}
 		}
-		env := &Env{x: x, st: nil, vars: vars}
-		saved := c.qscope
-		var local []Term
-		c.qscope = &local
-		var body Term
-		func() {
-			defer func() { c.qscope = saved }()
-			body = env.eval(ax.E).Term()
-		}()
-		// type facts about bound integer variables hold for the values callers pass
-		var guards []Term
-		for i, pn := range pnames {
-			if _, ok := ptypes[i].Underlying().(*types.Slice); !ok {
-				guards = append(guards, c.RangeFact(vars[pn].L[0], ptypes[i]))
-			}
+		// lemmas about fuelled functions are stated at both fuels that occur after one unfolding
+		fuels := []Term{{}}
+		if fi.fuel {
+			fuels = append(fuels, atom("(fS fZ)", "Fuel"))
 		}
-		body = implies(and(append(guards, local...)...), body)
-		pat := ""
-		if len(ax.Triggers) > 0 {
-			var ps []string
-			for _, te := range ax.Triggers {
-				c.qscope = &local
-				tv := env.eval(te)
-				c.qscope = saved
-				ps = append(ps, tv.L[0].S)
+		for fidx, fuelT := range fuels {
+			sfx := ""
+			if fidx > 0 {
+				sfx = "b"
 			}
-			pat = " :pattern (" + strings.Join(ps, " ") + ")"
-			c.Raw(fmt.Sprintf("axiom.%s.%d", u.Name, ai), fmt.Sprintf("(assert (forall (%s) (! %s%s)))", strings.Join(decl, " "), body.S, pat))
-		} else {
-			c.Raw(fmt.Sprintf("axiom.%s.%d", u.Name, ai), fmt.Sprintf("(assert (forall (%s) %s))", strings.Join(decl, " "), body.S))
+			env := &Env{x: x, st: nil, vars: vars, fuel: fuelT}
+			saved := c.qscope
+			var local []Term
+			c.qscope = &local
+			var body Term
+			func() {
+				defer func() { c.qscope = saved }()
+				body = env.eval(ax.E).Term()
+			}()
+			// type facts about bound integer variables hold for the values callers pass
+			var guards []Term
+			for i, pn := range pnames {
+				if _, ok := ptypes[i].Underlying().(*types.Slice); !ok {
+					guards = append(guards, c.RangeFact(vars[pn].L[0], ptypes[i]))
+				}
+			}
+			body = implies(and(append(guards, local...)...), body)
+			pat := ""
+			if len(ax.Triggers) > 0 {
+				var ps []string
+				for _, te := range ax.Triggers {
+					c.qscope = &local
+					tv := env.eval(te)
+					c.qscope = saved
+					ps = append(ps, tv.L[0].S)
+				}
+				pat = " :pattern (" + strings.Join(ps, " ") + ")"
+				c.Raw(fmt.Sprintf("axiom.%s.%d%s", u.Name, ai, sfx), fmt.Sprintf("(assert (forall (%s) (! %s%s)))", strings.Join(decl, " "), body.S, pat))
+			} else {
+				c.Raw(fmt.Sprintf("axiom.%s.%d%s", u.Name, ai, sfx), fmt.Sprintf("(assert (forall (%s) %s))", strings.Join(decl, " "), body.S))
+			}
 		}
 		if ax.Induct != "" {
 			x.lemmaObligations(fi, ai, ax)
@@ -189,7 +282,7 @@ func (x *Exec) lemmaObligations(fi *ufunInfo, ai int, ax *UAxiom) {
 	defer func() { c.qscope = outer }()
 	var excl []string
 	for j := ai; j < len(u.Axioms); j++ {
-		excl = append(excl, fmt.Sprintf("axiom.%s.%d", u.Name, j))
+		excl = append(excl, fmt.Sprintf("axiom.%s.%d", u.Name, j), fmt.Sprintf("axiom.%s.%db", u.Name, j))
 	}
 	ki := -1
 	pnames, ptypes := x.axParams(fi, ax)
@@ -203,13 +296,24 @@ func (x *Exec) lemmaObligations(fi *ufunInfo, ai int, ax *UAxiom) {
 		return
 	}
 	kT := ptypes[ki]
+	var hyps []Term
+	ihGuard := tTrue
 	mkVars := func(bound bool, kval Term) (map[string]Value, []string) {
 		vars := map[string]Value{}
 		var decl []string
 		for i, pn := range pnames {
 			T := ptypes[i]
 			if i == ki {
-				vars[pn] = Value{T: T, L: []Term{kval}}
+				if bound {
+					// the hypothesis quantifies over the induction variable as well, guarded
+					// by kk == k0: patterns then match any index term the solver derives
+					srt := c.leaves(T)[0].sort
+					decl = append(decl, fmt.Sprintf("(%s_ih %s)", pn, srt))
+					vars[pn] = Value{T: T, L: []Term{atom(pn+"_ih", srt)}}
+					ihGuard = eq(atom(pn+"_ih", srt), kval)
+				} else {
+					vars[pn] = Value{T: T, L: []Term{kval}}
+				}
 				continue
 			}
 			if sl, ok := T.Underlying().(*types.Slice); ok {
@@ -241,26 +345,29 @@ func (x *Exec) lemmaObligations(fi *ufunInfo, ai int, ax *UAxiom) {
 				vars[pn] = Value{T: T, L: []Term{atom(n, srt)}}
 			} else {
 				v := c.Fresh("lm."+pn, srt)
-				c.AddFact(tTrue, c.RangeFact(v, T), "lemma variable range")
+				hyps = append(hyps, c.RangeFact(v, T))
 				vars[pn] = Value{T: T, L: []Term{v}}
 			}
 		}
 		return vars, decl
 	}
-	evalP := func(vars map[string]Value) Term {
-		env := &Env{x: x, st: nil, vars: vars}
+	evalP := func(vars map[string]Value, fuel Term) Term {
+		env := &Env{x: x, st: nil, vars: vars, fuel: fuel}
 		saved := c.qscope
 		var local []Term
 		c.qscope = &local
 		defer func() { c.qscope = saved }()
-		return implies(and(local...), env.eval(ax.E).Term())
+		body := env.eval(ax.E).Term()
+		return implies(and(local...), body)
 	}
 	st := &State{pc: tTrue, cells: map[cellKey]Value{}, heap: Heap{}, alloc: intLit(0), defs: []defSrc{{tTrue, 0, nil}}}
 	zero := c.Lit(mustConst(intLit(0)), kT)
 	// base
 	v0, _ := mkVars(false, zero)
-	o := x.oblige(x.root, st, "lemma-base", fmt.Sprintf("%s/%d", u.Name, ai), token.NoPos, evalP(v0), "aux", "")
+	o := x.oblige(x.root, st, "lemma-base", fmt.Sprintf("%s/%d", u.Name, ai), token.NoPos, implies(and(hyps...), evalP(v0, Term{})), "aux", "")
+	hyps = nil
 	if o != nil {
+		o.snap.nf, o.snap.blk = 0, -1 // lemmas are proved from the axioms alone
 		o.exclude = excl
 	}
 	// step
@@ -268,13 +375,14 @@ func (x *Exec) lemmaObligations(fi *ufunInfo, ai int, ax *UAxiom) {
 	one := c.Lit(mustConst(intLit(1)), kT)
 	k1 := c.Arith(token.ADD, k0, one, kT, kT)
 	ihVars, decl := mkVars(true, k0)
-	ihBody := evalP(ihVars)
-	ih := ihBody
-	if len(decl) > 0 {
-		pat := ""
+	mkIH := func(fuel Term) Term {
+		ihBody := implies(ihGuard, evalP(ihVars, fuel))
+		if len(decl) == 0 {
+			return ihBody
+		}
 		if len(ax.Triggers) > 0 {
 			var ps []string
-			env := &Env{x: x, st: nil, vars: ihVars}
+			env := &Env{x: x, st: nil, vars: ihVars, fuel: fuel}
 			for _, te := range ax.Triggers {
 				var local []Term
 				c.qscope = &local
@@ -282,17 +390,22 @@ func (x *Exec) lemmaObligations(fi *ufunInfo, ai int, ax *UAxiom) {
 				c.qscope = nil
 				ps = append(ps, tv.L[0].S)
 			}
-			pat = " :pattern (" + strings.Join(ps, " ") + ")"
-			ih = Term{S: fmt.Sprintf("(forall (%s) (! %s%s))", strings.Join(decl, " "), ihBody.S, pat), Sort: SBool, N: ihBody.N + 2, UB: -1}
-		} else {
-			ih = Term{S: fmt.Sprintf("(forall (%s) %s)", strings.Join(decl, " "), ihBody.S), Sort: SBool, N: ihBody.N + 2, UB: -1}
+			return Term{S: fmt.Sprintf("(forall (%s) (! %s :pattern (%s)))", strings.Join(decl, " "), ihBody.S, strings.Join(ps, " ")), Sort: SBool, N: ihBody.N + 2, UB: -1}
 		}
+		return Term{S: fmt.Sprintf("(forall (%s) %s)", strings.Join(decl, " "), ihBody.S), Sort: SBool, N: ihBody.N + 2, UB: -1}
+	}
+	ih := mkIH(Term{})
+	if fi.fuel {
+		// unfolding the definition once lowers the fuel of the recursive call: the
+		// induction hypothesis is available at that fuel as well
+		ih = and(ih, mkIH(atom("(fS fZ)", "Fuel")))
 	}
 	v1, _ := mkVars(false, k1)
-	noWrap := and(c.Cmp(token.LEQ, zero, k0, kT), c.Cmp(token.LSS, k0, k1, kT), c.RangeFact(k0, kT))
-	goal := implies(and(noWrap, ih), evalP(v1))
+	noWrap := and(c.Cmp(token.LEQ, zero, k0, kT), c.Cmp(token.LSS, k0, k1, kT), c.RangeFact(k0, kT), c.RangeFact(k1, kT))
+	goal := implies(and(append(hyps, noWrap, ih)...), evalP(v1, Term{}))
 	o = x.oblige(x.root, st, "lemma-step", fmt.Sprintf("%s/%d", u.Name, ai), token.NoPos, goal, "aux", "")
 	if o != nil {
+		o.snap.nf, o.snap.blk = 0, -1
 		o.exclude = excl
 	}
 }
@@ -339,10 +452,21 @@ func (env *Env) applyUFun(u *UFun, args []Expr) Value {
 		if len(v.L) != 1 {
 			env.fail("ufun %s: argument %d", u.Name, i)
 		}
-		if v.L[0].Sort != fi.sorts[len(ts)] {
-			env.fail("ufun %s: argument %d has sort %s, want %s", u.Name, i, v.L[0].Sort, fi.sorts[len(ts)])
+		base := 0
+		if fi.fuel {
+			base = 1
+		}
+		if v.L[0].Sort != fi.sorts[base+len(ts)] {
+			env.fail("ufun %s: argument %d has sort %s, want %s", u.Name, i, v.L[0].Sort, fi.sorts[base+len(ts)])
 		}
 		ts = append(ts, v.L[0])
+	}
+	if fi.fuel {
+		f := env.fuel
+		if f.S == "" {
+			f = atom("(fS (fS fZ))", "Fuel")
+		}
+		ts = append([]Term{f}, ts...)
 	}
 	return Value{T: fi.rtype, L: []Term{mk(fi.rsort, sanitize(fi.name), ts...)}}
 }
@@ -352,7 +476,7 @@ func (env *Env) detIndex(v Value, idx Term) Value {
 	c := env.x.c
 	et := v.T.Underlying().(*types.Slice).Elem()
 	out := make([]Term, len(v.Det))
-	at := c.add(v.SOff(), idx)
+	at := c.Ix(v.SOff(), idx)
 	for i := range v.Det {
 		out[i] = sel(v.Det[i], at)
 	}
